@@ -7,11 +7,11 @@ import time
 MODULES = ['obligations.cache_ops']
 
 PROP_MODULES = {
-    'C03': ['obligations.cache_ops'],
+    'C03': ['obligations.cache_ops', 'obligations.e2_jobs'],
     'C04': ['obligations.cache_ops'],
     'C08': ['obligations.cache_ops'],
     'C09': ['obligations.cache_ops', 'obligations.fanout_ops'],
-    'C10': ['obligations.queue_ops', 'obligations.e2_jobs', 'obligations.persist_ops'],
+    'C10': ['obligations.queue_ops', 'obligations.e2_jobs', 'obligations.persist_ops', 'obligations.block_ops'],
     'C01': ['obligations.e2_jobs', 'obligations.cache_ops', 'obligations.queue_ops'],
     'C02': ['obligations.e2_jobs', 'obligations.cache_ops'],
     'C13': ['obligations.e2_jobs', 'obligations.fanout_ops', 'obligations.persistence_ops'],
@@ -31,21 +31,28 @@ PROP_MODULES = {
 for _p in ('C04', 'C08'):
     PROP_MODULES[_p] = PROP_MODULES[_p] + ['obligations.queue_ops']
 PROP_MODULES['C04'] = PROP_MODULES['C04'] + ['obligations.conc_ops']
-PROP_MODULES['C08'] = PROP_MODULES['C08'] + ['obligations.block_ops', 'obligations.e2_jobs', 'obligations.persist_ops']
+PROP_MODULES['C08'] = PROP_MODULES['C08'] + ['obligations.block_ops', 'obligations.e2_jobs', 'obligations.persist_ops', 'obligations.conc_ops']
+
+
+ALL_MODULES = sorted({m for v in PROP_MODULES.values() for m in v})
 
 
 def jobs_for(prop, tier):
+    """every obligation of every module that carries the property's tag (PROP_MODULES is only the historical grouping: an obligation written
+    for one property but tagged for another must run for both)"""
     out = []
-    for m in PROP_MODULES.get(prop, []):
+    seen = set()
+    for m in ALL_MODULES:
         mod = importlib.import_module(m)
         for j in mod.jobs(tier):
-            if prop in j['tags']:
+            if prop in j['tags'] and j['id'] not in seen:
+                seen.add(j['id'])
                 j = dict(j)
                 j.setdefault('module', m)
                 j.setdefault('engine', 'E1')
                 if j['engine'] != 'E1':
                     j['twin'] = False
-                j.setdefault('budget_s', 300 if tier == 'quick' else 2400)
+                j.setdefault('budget_s', 600 if tier == 'quick' else 2400)
                 j.setdefault('twin', True)
                 out.append(j)
     return out
